@@ -1,14 +1,66 @@
 """Source of truth for MANIFEST.json (tools/gen_manifest.py)."""
 ALL = [f"C{i:02d}" for i in range(1, 21)]
 
+_A = "explicit-state model checking of the real code: level-synchronous BFS over all operation sequences up to a depth bound with canonical-state deduplication; "
+_B = "exhaustive enumeration of a bounded input lattice on the real code (depth-1 state space, complete branching); "
+_NOTE = "Trusted base: the reference models in rtmc/ref and the harness oracle, written from the property statement and the Tecan record format, never calling robotools to compute an expected value. Exhaustive only within the bounds printed in evidence.coverage.bounds / rule; nothing is claimed beyond them."
+
+
+def A(tech, text, ref):
+    return {"technique": _A + tech, "text": text, "note": _NOTE, "design_ref": ref}
+
+
+def B(tech, text, ref):
+    return {"technique": _B + tech, "text": text, "note": _NOTE, "design_ref": ref}
+
+
 CHECKS = {
-    "C01": {
-        "technique": "explicit-state model checking of the real code: BFS over all operation sequences up to a depth bound, every emitted record replayed by an independent GWL interpreter",
-        "text": "Exhaustive within the stated bounds: every sequence of <= d core operations followed by any one operation of a ~300-event full alphabet, for 3 labware sets x 2 devices (+ max_volume and rounding variants). After every successful transition the appended records are parsed, decoded by the device's numbering rule and executed by an independent interpreter; volumes, compositions and record addressing are compared with the Labware objects. This is the right level because the property quantifies over programs and the code is deterministic: bounded exhaustive exploration of the real transition function decides it within the bound.",
-        "note": "Trusted: rtmc/ref (parser, interpreter, numbering) written from the record format; bounds: depth, alphabets, geometries listed in evidence.bounds. Nothing is claimed beyond them.",
-        "design_ref": "DESIGN.md section 4 / C01",
-    },
+    "C01": A(
+        "every emitted record is parsed, decoded by the device's numbering rule and executed by an independent GWL interpreter; volumes, compositions and addressing compared with the Labware objects",
+        "Every sequence of <= d core operations followed by any one operation of a ~300-event full alphabet (all argument shapes, wash schemes, partition modes, 63 destination subsets), 3 labware sets x 2 devices plus max_volume and non-dyadic rounding variants. The property quantifies over programs on deterministic code, so bounded exhaustive exploration of the real transition function decides it within the bound.",
+        "DESIGN.md 4/C01",
+    ),
+    "C02": A(
+        "state-relative volumes (exactly to the limit, one ulp beyond, 1e308, inf) at every call site; invariant + must-raise oracle in exact and float arithmetic + offending-well-unchanged",
+        "All histories <= d (rejected calls included, <= 2 per execution) over add/remove/aspirate/dispense/transfer/distribute/evo_*, 6 limit configurations on a plate and a trough, every reached state expanded with the full state-relative alphabet.",
+        "DESIGN.md 4/C02",
+    ),
+    "C03": A(
+        "fault dimension made explicit: designed failures at every sub-step; the whole record list is replayed record by record with limit and step-size checks; raising histories re-run inside a with-block and the file compared",
+        "All sequences of <= d successful core operations followed by one (possibly raising) operation of the full alphabet, 2 labware sets x 2 devices x auto_split on/off; a vacuity check requires every designed failure point to be reached.",
+        "DESIGN.md 4/C03",
+    ),
+    "C04": A(
+        "exact Fraction ledger per real well; frame condition bit-exact; all argument shapes",
+        "All histories <= d of add/remove/aspirate/dispense over 4 labware x 11-13 well-argument shapes x scalar/list/2-D volume arguments with pairwise distinct entries, wide and tight limits.",
+        "DESIGN.md 4/C04",
+    ),
+    "C05": A(
+        "exact volumetric mixing ledger per component; finiteness, range, normalisation, removal invariance, conservation",
+        "All histories <= d (thorough: 4, serial dilutions) of transfer/distribute/dispense-with-composition/aspirate/remove over three naming configurations x two devices, plus the default-naming rule for every plate 1..4 x 1..4 and troughs 1..3 columns.",
+        "DESIGN.md 4/C05",
+    ),
+    "C06": B(
+        "dense (volume, max_volume) grid incl. +-1 ulp around every multiple, end-to-end through both transfer implementations, reagent-distribution grid; arithmetic reference in Fractions",
+        "Complete grid of ~40 000 (thorough ~150 000) (v, max_volume) pairs for the helper, 700 end-to-end transfers per tier on both devices with auto_split on/off, 450 reagent distributions.",
+        "DESIGN.md 4/C06",
+    ),
+    "C11": A(
+        "the complete history is the state (no merging); prefix preservation, entry-count delta, snapshot non-aliasing, label / LVH count from the emitted records, report",
+        "All histories <= d over add/remove/aspirate/dispense/transfer (zero, partly zero, split, same labware, same well)/distribute with labels None/''/'L' on alternating Evo and Fluent worklists.",
+        "DESIGN.md 4/C11",
+    ),
+    "C16": A(
+        "synchronous product of an Evo world and a Fluent world; pairwise equality of state, history, outcome class and records modulo trough position fields which must decode to the same well",
+        "All sequences <= d (failing operations included) over C01's alphabet + C03's designed failures + comment/wash/flush/commit, 2 labware sets x auto_split on/off, run in lock-step on both devices and on a BaseWorklist.",
+        "DESIGN.md 4/C16",
+    ),
+    "C17": A(
+        "state = (record list, directory contents); file bytes compared with CRLF-joined Latin-1 records after every save / with-exit",
+        "All histories <= d over {emit a record of each type, save(str/Path) under 6 names, __enter__, __exit__ with/without exception, aborted with-block} x configured path yes/no x pre-existing file absent/shorter/longer x 2 devices.",
+        "DESIGN.md 4/C17",
+    ),
 }
 
-_PENDING = "check not built yet in this revision of /verif (see DESIGN.md section 4); will be claimed once its harness exists"
+_PENDING = "check not built yet in this revision of /verif (DESIGN.md section 4 describes it); it will be claimed once its harness exists"
 NOT_APPLICABLE = {p: _PENDING for p in ALL if p not in CHECKS}
